@@ -103,12 +103,19 @@ def run(ctx):
         rc.judge(ctx, "C05", [g], obs, describe)
         return
     # 1. the required design holds; the as-written variant is refuted (anti-vacuity)
-    mc = {"PktCap": 1, "MsgCap": 1, "MaxFrames": ctx.pick(1, 2), "Classes": '{"normal", "empty", "maxlen", "reject", "ping"}'}
+    # (measured: fwd instance, 1 frame, 5 classes: 37 504 states; 2 frames, {normal, empty}: 780 652 states)
+    mc = {"PktCap": 1, "MsgCap": 1}
     ctx.tlc("relay", "MC_RelayServer", cfg="MC_RelayServer_fwd.cfg", timeout=ctx.pick(900, 3000),
-            constants=dict(mc, FixUndeliverable="TRUE"),
+            constants=dict(mc, MaxFrames=ctx.pick(1, 2), FixUndeliverable="TRUE",
+                           Classes=ctx.pick('{"normal", "empty", "maxlen", "reject", "ping"}', '{"normal", "empty"}')),
             require_actions=["Register", "ClientFrame", "Close", "TakePacket", "Unregister"])
+    if not ctx.quick:
+        ctx.tlc("relay", "MC_RelayServer", cfg="MC_RelayServer_tiny.cfg", timeout=3000,
+                constants=dict(mc, MaxFrames=3, FixUndeliverable="TRUE", Classes='{"normal", "ebatch", "bmax", "reject", "ping"}'),
+                require_actions=["Register", "ClientFrame", "Close", "TakePacket", "Unregister"])
     ctx.tlc("relay", "MC_RelayServer", cfg="MC_RelayServer_tiny.cfg", timeout=900,
-            constants=dict(mc, MaxFrames=1, FixUndeliverable="FALSE"), expect_violation="Isolation")
+            constants=dict(mc, MaxFrames=1, FixUndeliverable="FALSE", Classes='{"normal", "empty", "maxlen", "reject", "ping"}'),
+            expect_violation="Isolation")
     # 2. behaviours -> implementation
     for name, consts in families(ctx):
         scen, seen_ops, res = rc.generate(ctx, "Gen_RelayServer_iso.cfg", consts)
